@@ -400,7 +400,7 @@ func single(run *kit.Run) {
 var special = mustNets(
 	"0.0.0.0/8", "10.0.0.0/8", "100.64.0.0/10", "127.0.0.0/8", "169.254.0.0/16", "172.16.0.0/12", "192.0.0.0/24", "192.0.2.0/24", "192.31.196.0/24", "192.52.193.0/24",
 	"192.88.99.0/24", "192.168.0.0/16", "192.175.48.0/24", "198.18.0.0/15", "198.51.100.0/24", "203.0.113.0/24", "224.0.0.0/4", "240.0.0.0/4",
-	"::/128", "::1/128", "::ffff:0:0/96", "64:ff9b::/96", "64:ff9b:1::/48", "100::/64", "2001::/23", "2001:db8::/32", "2002::/16", "2620:4f:8000::/48", "3fff::/20", "5f00::/16", "fc00::/7", "fe80::/10", "ff00::/8",
+	"::/128", "::1/128", "64:ff9b::/96", "64:ff9b:1::/48", "100::/64", "2001::/23", "2001:db8::/32", "2002::/16", "2620:4f:8000::/48", "3fff::/20", "5f00::/16", "fc00::/7", "fe80::/10", "ff00::/8",
 )
 
 func mustNets(s ...string) []*net.IPNet {
@@ -426,6 +426,15 @@ func isSpecial(ip net.IP) bool {
 
 // audit: an address the default strategies skip as trusted/private must lie in a special-purpose block.
 func audit(run *kit.Run) {
+	// the oracle itself must be able to tell a public address from a special one, in both families (an IPv4-mapped
+	// block in the table would silently cover every IPv4 address: net.IPNet treats ::ffff:0:0/96 as 0.0.0.0/0)
+	for ip, want := range map[string]bool{"8.8.8.8": false, "172.15.255.255": false, "172.32.0.1": false, "192.18.0.1": false, "10.1.2.3": true, "198.18.0.1": true,
+		"2606:4700::1": false, "2001:db8::1": true, "fe80::1": true, "::ffff:8.8.8.8": false} {
+		if isSpecial(net.ParseIP(ip)) != want {
+			run.Inconclusive("range audit oracle is wrong about %s", ip)
+			return
+		}
+	}
 	right, _ := clientip.NewRightmostNonPrivate(clientip.XForwardedForKey)
 	left, _ := clientip.NewLeftmostNonPrivate(clientip.XForwardedForKey, 1)
 	trusted := func(ip string) (bool, bool) {
